@@ -55,6 +55,12 @@ CLAIMS = {
  "C08": ("abstract interpretation of the repo's AST on x and g.x with all learnable parameters symbolised (block(g.x) == g.block(x) as exact terms; eigh modelled up to its signed-permutation covariance; arg-max as order-free selection)",
          "Decides for GroupNorm/LayerNorm (scalar and eigh-whitened vector paths), VectorNeuronNonlinear, MaxNormPool, max_pool, average_pool and unpool, for every accepted type incl. pseudo-scalars/vectors, group counts dividing the channels, default eps, several activations, D=2,3, that the block commutes with the generators of B_D (hence the whole group) as an identity of terms in which every scale, bias and mixing weight is a free symbol -- i.e. for every parameter value -- and that pooling/unpooling commute with shifts by the patch length.",
          "Trusted axioms: A8 (covariance of eigh under signed permutations; degenerate spectra not decided), A10 (arg-max picks the maximal comparator; ties not decided), the definition of eqx.nn.GroupNorm; activations are uninterpreted functions.", "3/C08"),
+ "C07": ("abstract interpretation of model constructors and __call__ on x and g.x with symbolised parameters and a generic invariant bank (model(g.x) == g.model(x) as exact terms; large polynomials interned as signed symbols) + EFFECT AST rule",
+         "Decides for the swept architecture box (UNet, ResNet, DilResNet, ConvBlock in both activation orders, with/without normalisation, bias modes, activations, signatures incl. pseudo-types, depth, blocks, down-samplings, mixed torus flags, D=2 and a D=3 block/ResNet) that the whole network commutes with the generators of B_D -- every learnable parameter being a free symbol -- and with cyclic shifts (one pixel for ResNets, the pooling factor for the U-Net); EFFECT decides for all of models.py that conventional constructs are control-dependent on `not equivariant`.",
+         "Trusted: axioms A8/A10 (C08), conv/einsum models, invariance of the supplied banks (C03); interning of large polynomials is sound for equalities between two runs of the same code; the architecture box is finite.", "3/C07"),
+ "C20": ("shape/type-level abstract interpretation of model constructors and __call__ over the constructor box (output signature == requested signature; abstract shape errors) + tracked flatten/unflatten round trip",
+         "Decides for the swept constructor box in equivariant and conventional mode (classes, depth, blocks, down-samplings, convolutions per level, normalisation incl. batch norm, bias, activation, kernel size, D=2,3, non-square extents, mixed flags, signatures with several types, pseudo-types and unequal channels) that the output holds exactly the requested types, channel counts and order with the input's spatial shape, D and flags; internal channel/shape inconsistencies surface as abstract errors at the offending statement.",
+         "Trusted: shape summaries of eqx.nn.Conv/ConvTranspose/GroupNorm/BatchNorm; banks contain every needed filter type (the 'reachable through present filters' clause is only exercised with complete banks); equivariant group norm is documented as unavailable for k>1.", "3/C20"),
 }
 
 NA_REASON = "check not built yet in this session (build in progress); see DESIGN.md section 3 for the planned static rule"
